@@ -379,3 +379,23 @@ PROPS['C15'] = dict(
     technique='round-trip (print->parse) monitor over an enumerated configuration lattice x seeded limit-biased values; release + debug-assertion builds',
     design_ref='DESIGN.md section 4, C15',
 )
+
+PROPS['C16'] = dict(
+    sub='c16',
+    quick=[S('rel'), S('dbg')],
+    thorough=[S('rel'), S('dbg')],
+    rule='strftime: every date -9999-01-01..9999-12-31 x 21 date specifiers (%a %A %b %B %h %C %d %e %j %m %u %w %U %W %V %G %g %y %Y %F %D) and every second of a day x 21 time specifiers (%H %I %k %l %M %S %p %P %R %T %f %.f %3f %6f %9f %.3f %.6f %.9f %n %t %%), each against the reference calendar and (for the specifiers glibc defines identically) glibc strftime through FFI; '
+         'seeded limit-biased datetimes x 20 numeric specifiers x flags {none,_,-,0} x widths {none,1,2,3,5,8,12} against the documented padding rule and glibc, ^ and # against glibc; '
+         'seeded zoned values (fixed offsets to the second incl. +-25:59:59, 7 named zones, instants at both limits): %z %:z %s %Q %:Q against the model, Timestamp/Zoned strptime(strftime) through %z, %:z[%Q], %Q and %s; '
+         'inverse law over 20 determining formats for DateTime/Date/Time (ISO week dates, day of year, 12-hour clock, month and weekday names, two-digit years inside 1969..2068), contradictory weekday must be rejected; '
+         'RFC 2822: seeded instants with years 0..9999 x offsets, plus every day 1900..2100 x 6 (time, offset) pairs: printed text read by an independent reader (weekday consistent, instant to the second, offset to the minute), print->parse for Zoned and Timestamp, contradictory weekday rejected unless relaxed_weekday, obsolete zone names. '
+         'distinct_nontrivial = distinct dates (every 64th) + distinct seeded datetimes (every 8th)',
+    floors={'quick': {'evaluations': 100000000}, 'thorough': {'evaluations': 1000000000}},
+    assumptions=COMMON_ASSUME + ['%y %g %D outside 1969..2068 are documented as unrepresentable: refusal is accepted, any printed text is not',
+                                 'year specifiers for negative years, a width without flag on an unpadded specifier (%5u), "-" together with a width, # on mixed-case strings and %^P are not defined consistently by jiff documentation and glibc: counted, no verdict',
+                                 'glibc 2.36 strftime in the C locale is the C library reference'],
+    level_text='Reference-model and differential monitoring of the real strftime/strptime and RFC 2822 code: all dates and all seconds of a day for every specifier against an independent calendar and glibc strftime, seeded flag/width combinations, print->parse inverse laws over determining formats, and an independent RFC 2822 reader; release and debug-assertion builds.',
+    level_note='Trusted base: harness/src/cal.rs (corroborated by C01), glibc strftime, the RFC 2822 reader in harness/src/c16.rs. Formats are a fixed list of determining formats plus single specifiers, not arbitrary format strings.',
+    technique='reference-model + differential (glibc strftime via FFI) monitor over all dates/seconds x specifiers, round-trip monitor for strptime and RFC 2822; release + debug-assertion builds',
+    design_ref='DESIGN.md section 4, C16',
+)
